@@ -24,8 +24,8 @@ MODS = {
     'pkgq/sub/__init__.py': '',
     'pkgq/sub/near.py': 'nearval = 2\n',
     'factories.py': 'class Alpha(object):\n    alpha_attr = 1\nclass Beta(object):\n    beta_attr = 2\n'
-                    'def make_alpha(n):\n    if n:\n        return Alpha()\n    return make_beta(n)\n'
-                    'def make_beta(n):\n    if n:\n        return Beta()\n    return make_alpha(n)\n'
+                    'def make_alpha(n):\n    if n:\n        result = Alpha()\n    else:\n        result = make_beta(n)\n    return result\n'
+                    'def make_beta(n):\n    if n:\n        result = Beta()\n    else:\n        result = make_alpha(n)\n    return result\n'
                     'first = make_alpha(0)\nsecond = make_beta(0)\n',
 }
 REQUESTS = [
@@ -46,6 +46,8 @@ REQUESTS = [
     ('location', 'from ..far import farval\nfarval', (2, 3), 'pkgq/sub/mod.py'),
     ('assist', 'import factories\nfactories.first.', (2, 16)),
     ('assist', 'import factories\nfactories.second.', (2, 17)),
+    ('assist', 'from factories import make_beta\nmake_beta(1).', (2, 13)),
+    ('location', 'from factories import make_alpha\nmake_alpha(1).beta_attr', (2, 16)),
 ]
 NREQ = len(REQUESTS)
 
